@@ -561,6 +561,18 @@ theorem generated_set_status_notify_condition_eq_model (enq : Except MessagingEr
   cases s <;> cases prev <;> rfl
 end XlateTie
 
+/-! ### E-SRC, async-std backend (round 4)
+
+`wait(Some(d))`, `stop_and_wait`, `kill_and_wait`, `drain_and_wait` go through `concurrency::timeout`; with
+`--features async-std` it forwards duration and future unchanged to `async_std::future::timeout` and maps its error
+to `Timeout`. The children waits (`stop_children_and_wait`, `drain_children_and_wait`) use the backend's `JoinSet`,
+which polls the futures inline in the caller (`FuturesUnordered`) and never reports a join error. -/
+theorem src_async_std_timeout :
+    Extracted.asyncStdTimeoutBody = "async_std::future::timeout(dur,future).await.map_err(|_|super::Timeout)" := by decide
+theorem src_async_std_joinset :
+    Extracted.asyncStdJoinSetSpawnBody = "self.set.push(f.boxed());"
+    ∧ Extracted.asyncStdJoinSetJoinNextBody = "self.set.next().await.map(|item|Ok(item))" := by decide
+
 end C06
 
 #print axioms C06.waiter_returns_only_after_full_stop
@@ -592,3 +604,5 @@ end C06
 #print axioms C06.every_call_completes
 #print axioms C06.terminal_events_bounded
 #print axioms C06.post_stop_skipped_only_after_kill
+#print axioms C06.src_async_std_timeout
+#print axioms C06.src_async_std_joinset
